@@ -309,7 +309,11 @@ func (eapAkaPrime *EapAkaPrime) Unmarshal(rawData []byte) error {
 			attr.reserved = valBitsLen
 
 			valBytesLen := valBitsLen / 8
-			totalLen := uint16(attr.length * 4)
+			totalLen := uint16(attr.length) * 4
+			if totalLen < valBytesLen+EapAkaAttrTypeLen+EapAkaAttrLengthLen+EapAkaAttrReservedLen {
+				return errors.Errorf("EAP-AKA' Unmarshal(): %s attribute length %d is too small for a value of %d bytes",
+					attr.attrType, attr.length, valBytesLen)
+			}
 			paddingLen := totalLen - valBytesLen - EapAkaAttrTypeLen - EapAkaAttrLengthLen - EapAkaAttrReservedLen
 
 			attr.value = make([]byte, valBytesLen)
